@@ -12,7 +12,7 @@ items = []
 for f in sorted(glob.glob(os.path.join(VERIF, 'selftest', 'mutants', '*.diff'))):
     items.append((os.path.basename(f)[:3].upper(), f))
 for f in sorted(glob.glob(os.path.join(VERIF, 'seeded', '*', 'patch.diff'))):
-    items.append((os.path.basename(os.path.dirname(f)), f))
+    items.append((os.path.basename(os.path.dirname(f))[:3], f))
 W = '/tmp/hp-selftest-wt'
 res = []
 for pid, f in items:
